@@ -7,7 +7,7 @@ for p0 in "$@"; do p=$(realpath "$p0")
   wt=/var/tmp/mut-$$-$RANDOM
   git -C /repo worktree add -q --detach $wt HEAD || { echo "MUTANT $p0: cannot create worktree"; continue; }
   if ! git -C $wt apply "$p" 2>/dev/null; then echo "MUTANT $(basename $(dirname $p))/$(basename $p): patch does not apply"; git -C /repo worktree remove --force $wt; continue; fi
-  out=$(cd /verif && VERIF_REPO=$wt VERIF_NO_EVIDENCE=1 ./check $prop 2>&1 | grep -E "^VIOLATION|: ok|: VIOLATION" | head -3)
+  out=$(cd "$(dirname "$0")/.." && VERIF_REPO=$wt VERIF_NO_EVIDENCE=1 ./check $prop 2>&1 | grep -E "^VIOLATION|: ok|: VIOLATION" | head -3)
   git -C /repo worktree remove --force $wt; git -C /repo worktree prune
   echo "MUTANT $(basename $(dirname $p))/$(basename $p): $out" | tr '\n' ' '; echo
 done
